@@ -64,12 +64,15 @@ pub enum MutOp {
         #[serde(with = "hexser")]
         bytes: Vec<u8>,
     },
-    /// replace `del` bytes at `off` by `bytes`
+    /// replace `del` bytes at `off` by `bytes`; with `fix_len` the frame's length prefix is
+    /// re-computed afterwards (`off` then counts from the first byte after the old prefix)
     Splice {
         off: usize,
         del: usize,
         #[serde(with = "hexser")]
         bytes: Vec<u8>,
+        #[serde(default)]
+        fix_len: bool,
     },
     Append {
         #[serde(with = "hexser")]
@@ -144,8 +147,10 @@ pub enum Step {
 
 #[derive(Clone, Debug, Serialize, Deserialize, PartialEq)]
 pub struct Extra {
-    /// virtual time since the client connected
+    /// virtual time since the client connected, or since it sent Login Acknowledged (`after_ack`)
     pub at_ns: u64,
+    #[serde(default)]
+    pub after_ack: bool,
     pub id: i32,
     pub body: Body,
 }
@@ -410,10 +415,21 @@ impl<'a> Engine<'a> {
                             }
                         }
                     }
-                    MutOp::Splice { off, del, bytes: b } => {
-                        let off = (*off).min(bytes.len());
-                        let end = (off + del).min(bytes.len());
-                        bytes.splice(off..end, b.iter().copied());
+                    MutOp::Splice { off, del, bytes: b, fix_len } => {
+                        if *fix_len {
+                            let mut r = Rd::new(&bytes);
+                            let _ = r.varint();
+                            let mut body = bytes[r.p..].to_vec();
+                            let off = (*off).min(body.len());
+                            let end = (off + del).min(body.len());
+                            body.splice(off..end, b.iter().copied());
+                            bytes = codec::varint(body.len() as i32);
+                            bytes.extend_from_slice(&body);
+                        } else {
+                            let off = (*off).min(bytes.len());
+                            let end = (off + del).min(bytes.len());
+                            bytes.splice(off..end, b.iter().copied());
+                        }
                     }
                     MutOp::Append { bytes: b } => bytes.extend_from_slice(b),
                     MutOp::WireFlip { off, bit } => flips.push((*off, *bit)),
@@ -748,7 +764,16 @@ impl<'a> Engine<'a> {
 
     fn run_action(&mut self, a: Action) {
         match a {
-            Action::Send { kind, id, body } => self.send_packet(kind, id, &body),
+            Action::Send { kind, id, body } => {
+                self.send_packet(kind, id, &body);
+                if kind == "LoginAck" {
+                    for (i, x) in self.spec.extras.iter().enumerate() {
+                        if x.after_ack {
+                            self.at(x.at_ns, Action::Extra(i));
+                        }
+                    }
+                }
+            }
             Action::Close { reset } => self.do_close(reset),
             Action::Extra(i) => {
                 let e = self.spec.extras[i].clone();
@@ -826,7 +851,9 @@ pub async fn run_client(spec: &ClientSpec, pipe: &ClientEnd, deadline_ns: u64) -
         }
     }
     for (i, x) in spec.extras.iter().enumerate() {
-        e.at_abs(t_connect + x.at_ns, Action::Extra(i));
+        if !x.after_ack {
+            e.at_abs(t_connect + x.at_ns, Action::Extra(i));
+        }
     }
     loop {
         let due = e.next_due();
